@@ -184,6 +184,11 @@ def oracle(inp, obs):
     if isinstance(obs['order'], dict):
         fails.append('order-raises-%s: get_sort_order raised %s' % (tag, obs['order']['err']))
     else:
+        ones_at = [i for i, d in enumerate(obs['order']) if 0 <= d < k and sizes[d] == 1]
+        bigs_at = [i for i, d in enumerate(obs['order']) if 0 <= d < k and sizes[d] > 1]
+        if tag == 'regular' and ones_at and bigs_at and min(ones_at) < max(bigs_at):
+            fails.append('order-single-valued-%s: a dimension that never changes is ranked faster than one that does: order %s, '
+                         'sizes %s' % (tag, obs['order'], sizes))
         if sorted(obs['order']) != list(range(k)) or [d for d in obs['order'] if sizes[d] > 1] != big_rate:
             fails.append('order-%s: reported order %s does not rank dimensions fastest to slowest (true rate %s, sizes %s)'
                          % (tag, obs['order'], rate, sizes))
